@@ -569,6 +569,7 @@ def check(ctx):
     shared.borrow(ctx, rep, [
         ('c01', lambda m: m.rule2(ctx, rep), 'the task messages made for a job are the targets just released (do), not those already executing'),
         ('c11', _c11, 'a task written to a worker that is gone or stale is a released unit that no one answers'),
+        ('c14', lambda m: m._rule1(ctx, rep), 'a result is applied only if its frame is reassembled: the reply stream is cut into messages the same way for every fragmentation'),
         ('c02', lambda m: m._update_rules(ctx, rep, 6), 'the new-value report of a result is propagated by update()/organize(): every reported target must be queued'),
     ])
     return rep
